@@ -15,6 +15,7 @@ import GraphiqModel.Proofs.StateToGraphTableau
 import GraphiqModel.Proofs.StateToGraphPairMatrix
 import GraphiqModel.Proofs.StateToGraphSpectrum
 import GraphiqModel.Proofs.GraphStateGroup
+import GraphiqModel.Proofs.InvTotal
 namespace Graphiq.C08
 open Graphiq Graphiq.PRow Graphiq.Tab Graphiq.STab
 
@@ -637,5 +638,25 @@ theorem conversions_preserve_graph_state (n : Nat) (hn : 0 < n) (adj : Adj) (hsy
 example : (List.range 3).all (fun i => (List.range 3).all fun j =>
     ((czEdges (plusSTab 3) [(0, 1), (1, 2), (0, 2)]).row i).z j == ((graphSTab 3 tri).row i).z j) = true := by decide
 example : checkConversion (graphSTab 3 tri) [] tri = true := by decide +kernel
+
+/-! ### Cross-references (sweep): one notion of "stabilizer state" across C05 / C08 / C11
+
+  `IsStabilizerState` (this file: real, pairwise commuting, `S2G.Indep` rows) is — definitionally — the hypothesis
+  `t.Good ∧ t.Indep` of C11's `inverse_circuit_returns_iff_independent` and C05's `canonical_form_returns_iff_independent`
+  (`Proofs/InvTotal.lean`), so the four library functions return on exactly the same tableaux. -/
+
+/-- C08's `IsStabilizerState` is C11 / C05's `Good ∧ Indep` -/
+theorem isStabilizerState_iff_good_indep (t : STab) : IsStabilizerState t ↔ t.Good ∧ t.Indep := Iff.rfl
+
+/-- **`state_to_graph`, `inverse_circuit` and `canonical_form` return on exactly the same tableaux** (real commuting rows,
+    `n ≥ 1`): each returns iff the generators are independent -/
+theorem state_to_graph_returns_iff_inverse_circuit_returns (t : STab) (hn : 0 < t.n) (hg : t.Good) :
+    ((∃ r, S2G.stateToGraph t = .ok r) ↔ (∃ r, t.inverseCircuit = .ok r)) ∧
+    ((∃ r, S2G.stateToGraph t = .ok r) ↔ (∃ r, t.canonicalForm = .ok r)) := by
+  have h1 := state_to_graph_returns_iff_state t hg.1
+  have h2 := STab.inverseCircuit_returns_iff t hg
+  have h3 := STab.canonicalForm_returns_iff t hg
+  have h4 : (0 < t.n ∧ IsStabilizerState t) ↔ t.Indep := ⟨fun h => h.2.2, fun h => ⟨hn, hg, h⟩⟩
+  exact ⟨h1.trans (h4.trans h2.symm), h1.trans (h4.trans h3.symm)⟩
 
 end Graphiq.C08
